@@ -12,6 +12,61 @@ def _info(outdir, pid):
     return open(p).read().split("\n") if os.path.exists(p) else []
 
 
+BLOCKWIRE_WHAT = ("prost schema::Block::decode / encode_to_vec (the Block message and everything nested in it: facts, rules, "
+                  "checks, predicates, terms, sets, arrays, maps, expressions, ops, closures, scopes, public keys) vs "
+                  "Model.BlockWire.decode_block / encode_block")
+BLOCKWIRE_RULE = ("hand-written merge probes (oneof variants seen twice or switched, required messages seen twice, packed and "
+                  "unpacked repeated scalars, lying lengths, overlong varints), nesting probes around prost's recursion budget "
+                  "(sets, arrays, maps, closures; known and unknown leaves at budget 0 and 1), the blocks of the conformance "
+                  "samples, blocks built by the library from the C04 generator, structured schema::Block values over the "
+                  "whole value ranges, schema-aware raw protobuf trees with 0-40 % odd fields, byte mutations and "
+                  "concatenations of all of them; distinct by bytes, non-trivial when longer than a bare header")
+
+
+def run_blockwire(ctx, found_on_panic=True):
+    """Second stream of C02 / C09: the wire format of block *contents*."""
+    outdir = os.path.join(GEN, ctx.pid + "_blockwire")
+    summ = run_harness(ctx, "h_blockwire", "", outdir)
+    files = summ.get("files", [])
+    ml = sorted(f for f in files if "/BW_ml_" in f)
+    kv = sorted(f for f in files if f.endswith(".v"))
+    bad, _ = run_ocaml_shards(ml, BLOCKWIRE_WHAT, "blockwire")
+    kbad, _, _ = run_kernel_shards(kv, BLOCKWIRE_WHAT)
+    cov = {k: v for k, v in summ.items() if k not in ("files", "family")}
+    cov["disagreements"] = len(bad)
+    cov["kernel_shards"] = len(kv)
+    cov["rule"] = BLOCKWIRE_RULE
+    ctx.coverage["block_content_wire_correspondence"] = cov
+    ctx.coverage["traces_validated_against_impl"] = ctx.coverage.get("traces_validated_against_impl", 0) + summ.get("evaluations", 0)
+    ctx.kernel_lemmas += len(kv)
+    ctx.kernel_ok += len(kv) if not kbad else 0
+    lines = case_lines(outdir, "BW")
+    info = _info(outdir, "BW")
+    for i in summ.get("panics", [])[:5]:
+        ctx.violation({"family": BLOCKWIRE_WHAT, "case_index": i, "info": info[i][:4000] if i < len(info) else None,
+                       "violated_clause": "schema::Block::decode panicked"}, found_on_panic)
+    if kbad and not bad:
+        ctx.violation({"family": BLOCKWIRE_WHAT, "theorem_or_correspondence": "in-kernel replay disagrees with extracted model",
+                       "kernel_bad": kbad[:10]}, False)
+    names = {"BWAccept true": "the model decodes block bytes that prost refuses",
+             "BWAccept false": "prost decodes block bytes that the model refuses",
+             "BWValue": "prost and the model decode block bytes to different structures",
+             "BWReencode": "prost re-encodes a decoded block to other bytes than the model",
+             "BWSelf": "the model does not read back its own encoding"}
+    for n, i in enumerate(bad):
+        if n >= 6:
+            break
+        case_text = lines[i] if i < len(lines) else "?"
+        model_text = kernel_eval("Model.BlockWireCases", "bwcase_model (%s)" % case_text)
+        clause = next((v for k, v in names.items() if k in model_text), "prost and the block wire model disagree")
+        ctx.violation({"family": BLOCKWIRE_WHAT, "case_index": i, "info": (info[i] if i < len(info) else "")[:6000],
+                       "case": case_text if len(case_text) < 200000 else case_text[:200000],
+                       "model_result": model_text[:1000], "violated_clause": clause,
+                       "theorem_or_correspondence": BLOCKWIRE_WHAT}, False)
+    return summ
+
+
+
 class WireFamily(Family):
     binary = "h_wire"
     extract = "wire"
@@ -113,12 +168,19 @@ class C02(WireFamily):
                            "case": case_text if len(case_text) < 200000 else case_text[:200000],
                            "model_result": model_text[:3000], "violated_clause": clause,
                            "theorem_or_correspondence": self.correspondence}, found)
+        # second stream: the wire format of the block contents (theorems C02_block_content_*)
+        run_blockwire(ctx)
 
     def replay_case(self, ctx, obj):
         case = obj.get("case")
         if not case or case == "?":
             print("replay: no case recorded; re-run ./check %s" % ctx.pid)
             return 0
+        if "BWDecode" in case:
+            r = kernel_eval("Model.BlockWireCases", "bwcase_model (%s)" % case)
+            print("block wire model on the recorded case: %s" % r[:600])
+            print("re-run ./check %s to ask prost again on the current tree" % ctx.pid)
+            return 0 if "BWAgree" in r else 1
         # the recorded case carries the implementation's outputs of that run; the model is re-evaluated on it,
         # and for decode cases prost is asked again on the current tree
         print("model on the recorded case: %s" % kernel_eval(self.module, "wcase_model (%s)" % case)[:600])
